@@ -43,7 +43,7 @@ class C09(Check):
                    'well-posed problems use quasi-uniform breakpoints (interval widths within a factor 3) and weights within 3 '
                    'decades, so cond(A^T W A) <~ 1e8 and the 1e-7*max|y| tolerance on fitted values has margin; wildly uneven '
                    'knot vectors legitimately trigger the fit\'s min_influence guard (status -1) and are not asserted to give 0']
-    REQUIRED_COUNTERS = ('long_fits_points_times_order_over_2**21', 'wellposed_weakest_coefficient_below_1e-10_of_strongest', 'wellposed_abscissae_with_large_offset', 'wellposed_zero_weight_points_outside_the_knots', 'solve_rhs_be_f8', 'solve_rhs_f4', 'canary_sequences', 'status0_optimality_checked', 'wellposed_status0', 'maskpoints_entered', 'cholesky_fallback_entered', 'status_minus1', 'status_minus2',
+    REQUIRED_COUNTERS = ('fits_with_fewer_good_breakpoints_than_the_order', 'status_compared_with_blank_data_twin', 'long_fits_points_times_order_over_2**21', 'wellposed_weakest_coefficient_below_1e-10_of_strongest', 'wellposed_abscissae_with_large_offset', 'wellposed_zero_weight_points_outside_the_knots', 'solve_rhs_be_f8', 'solve_rhs_f4', 'canary_sequences', 'status0_optimality_checked', 'wellposed_status0', 'maskpoints_entered', 'cholesky_fallback_entered', 'status_minus1', 'status_minus2',
                          'spd_factorisations', 'nonpd_signalled', 'nonfinite_signalled', 'zero_weight_invariance_checked')
     CASE_CPU_S = 60
 
@@ -188,7 +188,8 @@ class C09(Check):
                     'b': g.normal(size=n).tolist()}
         # ill-posed fits
         k = rng.randint(2, 5)
-        mode = rng.choice(['gap', 'gap', 'gap_isolated', 'gap_isolated', 'empty_segments', 'zero_run', 'few_points', 'few_bkpts', 'all_zero'])
+        mode = rng.choice(['gap', 'gap', 'gap_isolated', 'gap_isolated', 'empty_segments', 'zero_run', 'few_points', 'few_bkpts', 'all_zero',
+                           'caller_masked'])
         nbk = rng.randint(2, 25) if mode != 'few_bkpts' else rng.randint(2, 3)
         n = rng.randint(30, 200)
         x = np.sort(g.uniform(0, 10, n))
@@ -222,7 +223,14 @@ class C09(Check):
         elif mode == 'all_zero':
             w[:] = 0.0
         y = np.sin(x) + g.normal(0, 0.1, x.size)
-        return {'kind': cls, 'mode': mode, 'x': x.tolist(), 'y': y.tolist(), 'w': w.tolist(), 'nord': k, 'nbkpts': nbk}
+        case = {'kind': cls, 'mode': mode, 'x': x.tolist(), 'y': y.tolist(), 'w': w.tolist(), 'nord': k, 'nbkpts': nbk}
+        if mode == 'caller_masked':
+            # breakpoints masked by the caller before the fit (as iterfit's requiren rule does): 0 .. order-1 good ones are left
+            # beyond the first `order` knots, or a few more
+            case['keep_good'] = rng.choice([0, 0, 1, max(0, k - 1), k, k + 1])
+            case['mask_from'] = rng.choice(['end', 'start', 'random'])
+            case['mask_seed'] = rng.getrandbits(32)
+        return case
 
     # ------------------------------------------------------------------ run
     def canary(self):
@@ -460,6 +468,22 @@ class C09(Check):
             warnings.simplefilter('ignore')
             with np.errstate(all='ignore'):
                 s = B.bspline(x, nord=k, nbkpts=case['nbkpts'])
+                if case['mode'] == 'caller_masked':
+                    idx = np.arange(k, len(s.mask))
+                    if case['mask_from'] == 'start':
+                        idx = idx[::-1]
+                    elif case['mask_from'] == 'random':
+                        idx = np.random.default_rng(case['mask_seed']).permutation(idx)
+                    s.mask[idx[case['keep_good']:]] = False
+                    out.count('fits_with_breakpoints_masked_by_the_caller')
+                    out.count('fits_with_fewer_good_breakpoints_than_the_order', case['keep_good'] < k)
+                # the verdict on a problem (status, masked breakpoints) depends on the abscissae, weights and knots alone: the same
+                # problem with blank data (y = 0: a dead fibre, a sky-subtracted blank) and with y in other units goes the same way
+                twins = []
+                for ytwin in (np.zeros_like(y), y * 1e-17):
+                    t = B.bspline(x, nord=k, nbkpts=case['nbkpts'])
+                    t.mask = s.mask.copy()
+                    twins.append((t, ytwin))
                 nb0 = len(s.breakpoints)
                 steps = 0
                 prev_good = int(s.mask.sum())
@@ -468,6 +492,14 @@ class C09(Check):
                     st, yfit = s.fit(x, y, w)
                     fallback_in_call = self.rec.raises.get('scipy.cholesky_banded:LinAlgError', 0) > fb_call0
                     steps += 1
+                    for t, ytwin in twins:
+                        st_t, yf_t = t.fit(x, ytwin, w)
+                        out.expect(st_t == st and bool(np.array_equal(t.mask, s.mask)), 'status',
+                                   'step %d: the same abscissae, weights and knots with %s give status %r and %d masked breakpoints, '
+                                   'with the data status %r and %d masked' % (steps, 'blank data (y = 0)' if not ytwin.any() else 'y in other units',
+                                                                             st_t, int((~t.mask).sum()), st, int((~s.mask).sum())), mode=case['mode'])
+                        out.expect(bool(np.all(np.isfinite(np.asarray(t.coeff, dtype='f8')))), 'finite', 'non-finite coefficients (twin problem)')
+                    out.count('status_compared_with_blank_data_twin')
                     isint = isinstance(st, (int, np.integer)) and not isinstance(st, bool)
                     if not out.expect(isint, 'status', 'status is %r (%s), not an integer code' % (st, type(st).__name__)):
                         return
